@@ -4,7 +4,8 @@
    Vocabulary (proofs/TruncBinProofs.v):
      [runs (init D) s]   s is a state the reference interpretation (opt = false) reaches on the WHOLE
                          input D, after some number of iterations of 'outer;
-     [pos D s]           the number of bytes of D consumed when the run stands in s (a token boundary);
+     [pos D s]           the number of bytes of D consumed when the run stands in s (a token boundary;
+                         s_data s = skipn (pos D s) D, C19_bin_pos_is_position);
      [top s]             s_par s = 0 /\ s_ps s = Key: top level, key position -- not inside a container,
                          not between a key and the end of its value;
      [chop r D]          D without its last r bytes; firstn k D = chop (length D - k) D.
@@ -52,6 +53,12 @@ Print Assumptions C19_bin_exact.
 Theorem C19_bin_run_exists : forall D, exists sn, runs (init D) sn /\ iter false false sn = Done (parse_ref D).
 Proof. exact parse_ref_runs. Qed.
 Print Assumptions C19_bin_run_exists.
+
+(* [pos D s] is a position in D: the data of s is the rest of D from there on *)
+Theorem C19_bin_pos_is_position : forall D s, runs (init D) s ->
+  s_data s = skipn (pos D s) D /\ D = firstn (pos D s) D ++ s_data s /\ pos D s <= length D.
+Proof. exact runs_data_is_rest. Qed.
+Print Assumptions C19_bin_pos_is_position.
 
 Theorem C19_bin_trunc_ref : forall D F k, k <= length D -> parse_ref D = Ok F ->
   (exists e, parse_ref (firstn k D) = Err e) \/
